@@ -323,6 +323,13 @@ class MakeXarrayGrid(Contract):
         for _ in range(20 if tier == "thorough" else 8):
             nn, ne = rng.randint(1, 4), rng.randint(1, 5)
             e1, n1 = np.sort(nrng.uniform(-5, 5, ne)), np.sort(nrng.uniform(-5, 5, nn))
+            _o = rng.choice(["asc", "asc", "desc_n", "desc_both", "shuffled"])  # axes need not be ascending
+            if _o in ("desc_n", "desc_both"):
+                n1 = n1[::-1].copy()
+            if _o == "desc_both":
+                e1 = e1[::-1].copy()
+            if _o == "shuffled":
+                e1, n1 = nrng.permutation(e1), nrng.permutation(n1)
             nv, nx = rng.randint(0, 3), rng.randint(0, 2)
             coords = [e1, n1] if rng.random() < 0.5 else list(np.meshgrid(e1, n1))
             coords += [nrng.uniform(0, 1, (nn, ne)) for _ in range(nx)]
@@ -408,9 +415,17 @@ class GridToTable(Contract):
     def samples(self, rng, nrng, tier):
         import xarray as xr
 
-        for _ in range(12 if tier == "thorough" else 6):
-            nn, ne = rng.randint(1, 4), rng.randint(1, 5)
+        for it in range(14 if tier == "thorough" else 8):
+            # mostly genuinely 2-D grids (their layout variants are evaluated too); a few single-row/column ones
+            nn, ne = (rng.randint(2, 4), rng.randint(2, 5)) if it >= 2 else (rng.randint(1, 2), rng.randint(1, 5))
             e1, n1 = np.sort(nrng.uniform(-5, 5, ne)), np.sort(nrng.uniform(-5, 5, nn))
+            _o = rng.choice(["asc", "asc", "desc_n", "desc_both", "shuffled"])  # axes need not be ascending
+            if _o in ("desc_n", "desc_both"):
+                n1 = n1[::-1].copy()
+            if _o == "desc_both":
+                e1 = e1[::-1].copy()
+            if _o == "shuffled":
+                e1, n1 = nrng.permutation(e1), nrng.permutation(n1)
             dims = rng.choice([("northing", "easting"), ("lat", "lon")])
             coords = {dims[1]: e1, dims[0]: n1} if rng.random() < 0.5 else {dims[0]: n1, dims[1]: e1}
             for k in range(rng.randint(0, 2)):
